@@ -222,24 +222,21 @@ impl SqPackData {
     fn read_standard_file(&mut self, offset: u64, file_info: &FileInfo) -> Option<ByteBuffer> {
         let standard_file_info = file_info.standard_info.as_ref()?;
 
-        let mut blocks: Vec<Block> = Vec::with_capacity(standard_file_info.num_blocks as usize);
+        let mut blocks: Vec<Block> = Vec::new();
 
         for _ in 0..standard_file_info.num_blocks {
             blocks.push(Block::read(&mut self.file).ok()?);
         }
 
-        let mut data: Vec<u8> = Vec::with_capacity(file_info.file_size as usize);
+        let mut data: Vec<u8> = Vec::new();
 
         let starting_position = offset + (file_info.size as u64);
 
-        for i in 0..standard_file_info.num_blocks {
-            data.append(
-                &mut read_data_block(
-                    &mut self.file,
-                    starting_position + (blocks[i as usize].offset as u64),
-                )
-                .expect("Failed to read data block."),
-            );
+        for block in &blocks {
+            data.append(&mut read_data_block(
+                &mut self.file,
+                starting_position.checked_add(block.offset as u64)?,
+            )?);
         }
 
         Some(data)
@@ -253,9 +250,19 @@ impl SqPackData {
 
         let base_offset = offset + (file_info.size as u64);
 
-        let total_blocks = model_file_info.num.total();
+        // widened, since damaged block counts may not fit in the table's own integer type
+        let num = &model_file_info.num;
+        let total_blocks = num.stack_size as usize
+            + num.runtime_size as usize
+            + (0..3)
+                .map(|i| {
+                    num.vertex_buffer_size[i] as usize
+                        + num.edge_geometry_vertex_buffer_size[i] as usize
+                        + num.index_buffer_size[i] as usize
+                })
+                .sum::<usize>();
 
-        let mut compressed_block_sizes: Vec<u16> = vec![0; total_blocks as usize];
+        let mut compressed_block_sizes: Vec<u16> = vec![0; total_blocks];
         let slice: &mut [u8] = to_u8_slice(&mut compressed_block_sizes);
 
         self.file.read_exact(slice).ok()?;
@@ -284,14 +291,13 @@ impl SqPackData {
             for _ in 0..size {
                 let last_pos = &self.file.stream_position().ok()?;
 
-                let data =
-                    read_data_block(&self.file, *last_pos).expect("Unable to read block data.");
+                let data = read_data_block(&self.file, *last_pos)?;
                 // write to buffer
                 buffer.write_all(data.as_slice()).ok()?;
 
                 self.file
                     .seek(SeekFrom::Start(
-                        last_pos + (compressed_block_sizes[current_block] as u64),
+                        last_pos + (*compressed_block_sizes.get(current_block)? as u64),
                     ))
                     .ok()?;
                 current_block += 1;
@@ -314,7 +320,8 @@ impl SqPackData {
              size: u32,
              offset: u32,
              offsets: &mut [u32; 3],
-             data_sizes: &mut [u32; 3]| {
+             data_sizes: &mut [u32; 3]|
+             -> Option<()> {
                 if size != 0 {
                     let current_vertex_offset = buffer.position() as u32;
                     if i == 0 || current_vertex_offset != offsets[i - 1] {
@@ -325,27 +332,26 @@ impl SqPackData {
 
                     self.file
                         .seek(SeekFrom::Start(base_offset + (offset as u64)))
-                        .ok();
+                        .ok()?;
 
                     for _ in 0..size {
-                        let last_pos = self.file.stream_position().unwrap();
+                        let last_pos = self.file.stream_position().ok()?;
 
-                        let data = read_data_block(&self.file, last_pos)
-                            .expect("Unable to read raw model block!");
+                        let data = read_data_block(&self.file, last_pos)?;
 
-                        buffer
-                            .write_all(data.as_slice())
-                            .expect("Unable to write to memory buffer!");
+                        buffer.write_all(data.as_slice()).ok()?;
 
-                        data_sizes[i] += data.len() as u32;
+                        data_sizes[i] = data_sizes[i].checked_add(data.len() as u32)?;
                         self.file
                             .seek(SeekFrom::Start(
-                                last_pos + (compressed_block_sizes[current_block] as u64),
+                                last_pos + (*compressed_block_sizes.get(current_block)? as u64),
                             ))
-                            .expect("Unable to seek properly.");
+                            .ok()?;
                         current_block += 1;
                     }
                 }
+
+                Some(())
             };
 
         // process all 3 lods
@@ -357,7 +363,7 @@ impl SqPackData {
                 model_file_info.offset.vertex_buffer_size[i],
                 &mut vertex_data_offsets,
                 &mut vertex_data_sizes,
-            );
+            )?;
 
             // TODO: process edges
 
@@ -368,7 +374,7 @@ impl SqPackData {
                 model_file_info.offset.index_buffer_size[i],
                 &mut index_data_offsets,
                 &mut index_data_sizes,
-            );
+            )?;
         }
 
         let header = ModelFileHeader {
@@ -397,10 +403,10 @@ impl SqPackData {
     fn read_texture_file(&mut self, offset: u64, file_info: &FileInfo) -> Option<ByteBuffer> {
         let texture_file_info = file_info.texture_info.as_ref()?;
 
-        let mut data: Vec<u8> = Vec::with_capacity(file_info.file_size as usize);
+        let mut data: Vec<u8> = Vec::new();
 
         // write the header if it exists
-        let mipmap_size = texture_file_info.lods[0].compressed_size;
+        let mipmap_size = texture_file_info.lods.first()?.compressed_size;
         if mipmap_size != 0 {
             let original_pos = self.file.stream_position().ok()?;
 
@@ -416,20 +422,19 @@ impl SqPackData {
             self.file.seek(SeekFrom::Start(original_pos)).ok()?;
         }
 
-        for i in 0..texture_file_info.num_blocks {
-            let mut running_block_total = (texture_file_info.lods[i as usize].compressed_offset
-                as u64)
-                + offset
-                + (file_info.size as u64);
+        for lod in &texture_file_info.lods {
+            let mut running_block_total =
+                (lod.compressed_offset as u64) + offset + (file_info.size as u64);
 
-            for _ in 0..texture_file_info.lods[i as usize].block_count {
+            for _ in 0..lod.block_count {
                 let original_pos = self.file.stream_position().ok()?;
 
                 data.append(&mut read_data_block(&self.file, running_block_total)?);
 
                 self.file.seek(SeekFrom::Start(original_pos)).ok()?;
 
-                running_block_total += self.file.read_le::<i16>().ok()? as u64;
+                running_block_total =
+                    running_block_total.checked_add(self.file.read_le::<i16>().ok()? as u64)?;
             }
         }
 
